@@ -123,6 +123,8 @@ type conn struct {
 	afterOffend int // getheaders received after an offending reply was sent
 	offended    bool
 	offendedAt  time.Time
+	shakenAt    time.Time // handshake completed
+	closedAt    time.Time
 }
 
 // NewNode starts a node holding chain.
@@ -226,6 +228,7 @@ func (n *Node) closeConn(cn *conn, byRemote bool) {
 	n.mu.Lock()
 	if !cn.closed {
 		cn.closed = true
+		cn.closedAt = time.Now()
 		n.live--
 		if byRemote {
 			n.closedBy++
@@ -265,6 +268,7 @@ func (n *Node) serve(cn *conn) {
 		case *wire.MsgVerAck:
 			n.log(rec)
 			cn.handshaken = true
+			cn.shakenAt = time.Now()
 		case *wire.MsgPing:
 			n.log(rec)
 			if n.Spec.Pver > wire.BIP0031Version {
@@ -441,6 +445,70 @@ func (n *Node) RequestsAfterOffence() int {
 		t += c.afterOffend
 	}
 	return t
+}
+
+// FirstOffenceAt is the time of the first offending reply (zero if none).
+func (n *Node) FirstOffenceAt() time.Time {
+	n.mu.Lock()
+	defer n.mu.Unlock()
+	var t time.Time
+	for _, c := range n.conns {
+		if c.offended && (t.IsZero() || c.offendedAt.Before(t)) {
+			t = c.offendedAt
+		}
+	}
+	return t
+}
+
+// AdmittedBetween counts the connections whose handshake completed in [from, to] and that were treated as admitted
+// peers by the service: they received a getheaders, or stayed open for at least minLife. attempts is the number of
+// handshakes completed in the interval.
+func (n *Node) AdmittedBetween(from, to time.Time, minLife time.Duration) (admitted, attempts int) {
+	a, b, c := n.AdmittedDetail(from, to, minLife)
+	return a + b, c
+}
+
+// AdmittedDetail is AdmittedBetween with the two criteria counted separately.
+func (n *Node) AdmittedDetail(from, to time.Time, minLife time.Duration) (asked, longLived, attempts int) {
+	n.mu.Lock()
+	defer n.mu.Unlock()
+	now := time.Now()
+	for _, c := range n.conns {
+		if !c.handshaken || c.shakenAt.Before(from) || c.shakenAt.After(to) {
+			continue
+		}
+		attempts++
+		end := now
+		if c.closed {
+			end = c.closedAt
+		}
+		if c.getHeaders > 0 {
+			asked++
+		} else if end.Sub(c.shakenAt) >= minLife {
+			longLived++
+		}
+	}
+	return asked, longLived, attempts
+}
+
+func (n *Node) admittedBetweenOld(from, to time.Time, minLife time.Duration) (admitted, attempts int) {
+	n.mu.Lock()
+	defer n.mu.Unlock()
+	now := time.Now()
+	for _, c := range n.conns {
+		if !c.handshaken || c.shakenAt.Before(from) || c.shakenAt.After(to) {
+			continue
+		}
+		attempts++
+		end := now
+		if c.closed {
+			end = c.closedAt
+		}
+		if c.getHeaders > 0 || end.Sub(c.shakenAt) >= minLife {
+			admitted++
+		}
+	}
+	return admitted, attempts
 }
 
 // EverOffended reports whether an offending reply was sent on any connection.
